@@ -775,6 +775,16 @@ func main() {
 	}
 	if ctx.Prop == "C19" {
 		c19Control(ctx)
+		// a request that names the session from another address is refused AND leaves the session's clocks alone: with
+		// its own peer silent the session expires although the stolen id keeps arriving
+		r := runScenario(scenario{name: "play-udp silent, session id replayed from another address", idle: 2 * time.Second, read: 10 * time.Second,
+			cp: 200 * time.Millisecond, thenSilent: true, intruder: 300 * time.Millisecond})
+		ctx.Eval()
+		ctx.Kind("timeout scenario (intruder)")
+		ctx.Nontrivial("scenario:" + r.sc.name)
+		for _, f := range r.fails {
+			ctx.Failf(-1, f.class, r.sc.name, "%s", f.detail)
+		}
 		return
 	}
 	workers := runtime.NumCPU()
